@@ -180,7 +180,7 @@ class C20(Prop):
     quick_deadline_s = 100
     thorough_deadline_s = 800
     all_branches = (
-        ["new", "express", "getv:none", "getv:some", "expr:0", "expr:1", "badid", "validate:ok", "validate:bad", "list",
+        ["new", "stats", "express", "getv:none", "getv:some", "expr:0", "expr:1", "badid", "validate:ok", "validate:bad", "list",
          "diff:empty", "diff:some"]
         + [f"add:{g}:{b}" for g in ("allow", "nocb", "cb") for b in "01" if not (g == "allow" and b == "0")]
         + ["mutate:allow:1", "mutate:allow:0", "mutate:nocb:0", "mutate:cb:0", "mutate:cb:1", "mutate:cb:raise"]
@@ -201,7 +201,7 @@ class C20(Prop):
         "(mutation_rate 1.0 then attempts the identity mutation on every int-valued gene); the theorems hold for "
         "every draw function",
         "gene names are distinct strings (dict keys); description, timestamps, modifier text, console output and "
-        "get_statistics (beyond approved_mutations, read by the oracle) are not modelled; validate, list_genes, diff, "
+        "the hash strings themselves are not modelled; validate, list_genes, diff, get_statistics, "
         "from_dict and export are in the model/correspondence but outside the property",
     ]
     trusted_modelled = ["modelled: Genome.add_gene/mutate/rollback_mutation/set_expression/express/replicate/get_value as "
@@ -375,7 +375,7 @@ class C20(Prop):
                     lines.append(f"getv {i} {nm}")
                 if rng.random() < 0.12:
                     lines.append(rng.choice([f"validate {i}", f"list {i}", f"diff {i} {rng.randrange(count + 1)}",
-                                             f"diff {rng.randrange(count)} {i}"]))
+                                             f"diff {rng.randrange(count)} {i}", f"stats {i}", f"stats {i}"]))
                 if sandwich and rng.random() < 0.7:
                     lines.append(f"express {i} {rng.choice(ctxpool)}")
                     if rng.random() < 0.3:
@@ -408,7 +408,7 @@ class C20(Prop):
                 "replicate 0 1 1;2", "express 0 a,b", "new 0 zz 0", "rollback 0", "getv 5 0", "mutate 9 0 1",
                 "replicate 7 1 -", "express 4 -", "adv 1:q -",
                 "setallow 0 2", "setallow 0", "setcb 0 x", "setallow 9 1", "setcb 7 none", "setrate 0 yes", "setrate 0 1",
-                "setcb 0 none", "setallow 0 1"]
+                "setcb 0 none", "setallow 0 1", "stats 0", "stats 9", "stats"]
         lines = ["adv 0:* -", "new 0 0 0 0:1:s:0:2 1:2:c:0:2"]
         for _ in range(rng.randint(2, 6)):
             lines.append(rng.choice(junk) if rng.random() < 0.6 else rng.choice(
@@ -473,14 +473,15 @@ class C20(Prop):
                       ("0:7,0:1 -", "new 0 0 0 0:1:s:1:2 1:2:c:0:3"),
                       ("0:* -", "new 0 none 1 0:1:s:1:2 1:2:c:0:3")]:
             for k in range(1, dG + 1):
-                for ops in itertools.product(alphaG, repeat=k):
+                for ops in itertools.product(alphaG if k <= 3 else alphaG[:7], repeat=k):
                     if not any(o.startswith("set") for o in ops):
                         continue
                     cG.append({"lines": [f"adv {a}", nw, "mutate 0 0 7"] + list(ops) + ["mutate 0 0 1", "rollback 0 0"],
                                "note": f"exhaustive attribute assignment depth {k}"})
-        spaces.append({"name": f"all histories of depth <= {dG} with at least one assignment over a 9-operation "
-                               "setallow/setcb/mutate/rollback/replicate/re-add alphabet, between an initial mutate and a "
-                               "final mutate + rollback x 3 gate configurations", "cases": cG})
+        spaces.append({"name": f"all histories of depth <= 3 with at least one assignment over a 9-operation "
+                               "setallow/setcb/mutate/rollback/replicate/re-add alphabet" +
+                               (" and of depth 4 over its first 7 operations" if dG > 3 else "") + ", between an initial "
+                               "mutate and a final mutate + rollback x 3 gate configurations", "cases": cG})
         if tier != "quick":
             # depth 5 on the operations that interact through the log (approve / refuse / rollback / replicate)
             alpha5 = ["mutate 0 0 7", "mutate 0 0 5", "mutate 0 1 8", "rollback 0 0", "replicate 0 1 0:7",
@@ -594,6 +595,18 @@ class C20(Prop):
                         rows = {ncode(k_): f"{ncode(k_)}:{sh(a_, g.get_gene(k_) is None)}/{sh(b_, other.get_gene(k_) is None)}"
                                 for k_, (a_, b_) in d_.items()}
                         res = "diff [" + ",".join(v_ for _, v_ in sorted(rows.items(), key=lambda kv: _num(kv[0]))) + "]"
+                    elif kind == "stats":
+                        st_ = g.get_statistics()
+                        order_t = ["structural", "regulatory", "housekeeping", "conditional", "dormant"]
+                        order_e = ["SILENCED", "LOW", "NORMAL", "HIGH", "OVEREXPRESSED"]
+                        if set(st_["by_type"]) - set(order_t) or set(st_["by_expression"]) - set(order_e) \
+                                or 0 in st_["by_type"].values() or 0 in st_["by_expression"].values():
+                            res = f"stats-unexpected {sorted(st_['by_type'])} {sorted(st_['by_expression'])}"
+                        else:
+                            res = (f"stats n{st_['total_genes']} g{st_['generation']} m{st_['mutations_count']} "
+                                   f"a{st_['approved_mutations']} T[" + ",".join(str(st_["by_type"].get(k_, 0)) for k_ in order_t)
+                                   + "] E[" + ",".join(str(st_["by_expression"].get(k_, 0)) for k_ in order_e) + "]")
+                        rec["stats"] = {"hash": st_["hash"], "parent_hash": st_["parent_hash"]}
                     elif kind == "setallow":
                         # any truthy / falsy object: the code tests `not self.allow_mutations`
                         k_ = w.nassign = getattr(w, "nassign", 0) + 1
@@ -650,7 +663,7 @@ class C20(Prop):
             return (op, nat(t[1]), t[2] == "1")
         if op == "setcb" and len(t) == 3:
             return ("setcb", nat(t[1]), None if t[2] == "none" else nat(t[2]))
-        if op in ("validate", "list") and len(t) == 2:
+        if op in ("validate", "list", "stats") and len(t) == 2:
             return (op, nat(t[1]))
         if op == "diff" and len(t) == 3:
             return ("diff", nat(t[1]), nat(t[2]))
@@ -668,7 +681,8 @@ class C20(Prop):
             i = nat(t[1])
             if t[2] == "none":
                 return ("express", i, None)
-            return ("express", i, {gname(n): 1 for n in parse_names(t[2])})
+            # "named in the context": the VALUE under the name is irrelevant (also falsy ones)
+            return ("express", i, {gname(n): [1, 0, None, "", "x"][(n + i) % 5] for n in parse_names(t[2])})
         return None
 
     # --- oracle: the property text evaluated on observations of the real code only ------------------------
@@ -888,6 +902,18 @@ class C20(Prop):
                     (a["allow"], a["cb"], a["rate"]) != (b["allow"], b["cb"], b["rate"]):
                 V("assignment_exact", f"gate settings untouched by {r['line']!r}",
                   f"{(b['allow'], b['cb'], b['rate'])} -> {(a['allow'], a['cb'], a['rate'])}", idx)
+
+            # (H) get_statistics is an observation point of the property: its hash / parent_hash are get_hash() / the
+            # exported parent hash, its counters count the log (every refused attempt is IN mutations_count and NOT in
+            # approved_mutations)
+            if op == "stats" and not raised and "stats" in r:
+                want = (f"stats n{len(b['genes'])} g{b['generation']} m{len(b['log'])} "
+                        f"a{sum(1 for m_ in b['log'] if m_['approved'])}")
+                if not r["res"].startswith(want + " "):
+                    V("refused_logged", f"get_statistics counts the log: {want}", r["res"], idx)
+                if r["stats"]["hash"] != b["hash"] or r["stats"]["parent_hash"] != b["parent_hash"]:
+                    V("hash_changed", f"get_statistics hash = get_hash() = {b['hash']}, parent {b['parent_hash']}",
+                      f"{r['stats']}", idx)
 
             # (E) express: exactly the non-silenced, non-dormant genes, conditional ones only when named
             if op == "express" and not raised and "config" in r:
